@@ -209,8 +209,9 @@ def check_optional_label(prog: Program, res: Result) -> None:
     for cls, tag in TAG_OF.items():
         ebr = [n for n in ast.walk(efi.node) if isinstance(n, ast.If)
                and re.search(rf"isinstance\(\w+, {cls}\)", norm(n.test))]
-        ibr = [n for n in ast.walk(ifi.node) if isinstance(n, ast.If)
-               and norm(n.test).endswith(tag) and "chiral_tag" in norm(n.test)]
+        from ..convtables import _branches
+        ibr = [n for n in _branches(ifi.node, tag)
+               if "chiral_tag" in norm(n.test)]
         inst = f"{cls}: label optional in the export => optional in the import"
         if not ebr or not ibr:
             res.unrecognised("R-PERM-OPTIONAL", inst, efi.loc(),
